@@ -58,21 +58,32 @@ Theorem C02_read_io : ∀ rsv bbs m C,
 Proof. exact read_io. Qed.
 Print Assumptions C02_read_io.
 
-(* (4, partial) read_denotes, one statement, buffer case: `assign lv = e` where the node returned for e is not one of the reader's
-   own gates (identifier, constant, parenthesised, cancelled parity pair) and lv is absent or an undriven free node:
-   lv carries the value of e under every consistent valuation of the new circuit.
-   Missing for C02_read_denotes_full: (a) the relabel case - needs, by one more induction over the tree, that a gate
-   returned by c_cond is fresh, has no fan-out and does not occur in its own fan-in, then consistency transfers along the
-   renaming r -> lv; (b) the fold over the items with the set of nodes no later statement touches (defined nets, inner
-   gates), using C02_prim_instance_exact for instances; (c) the converse direction (extending a model of the module to the
-   synthetic nodes) *)
-Theorem C02_assign_buffer_partial : ∀ k st lv e st1 r st',
-  c_cond k st e = Ok (st1, r) → r ∉ st1.2 → assignment k st1 lv r = Ok st' →
-  ties_ok k st.1 → lv ∉ [k_t0 k; k_t1 k; k_tx k] → lv ∈ k_rsv k →
+(* (4, partial of read_denotes) one statement.  After `assign lv = e` - whether the reader buffers the node of e or renames its own
+   top gate to lv (networkx relabel with merge into an existing placeholder) - the net lv carries the value of e under every
+   consistent valuation of the new circuit.  Hypotheses: a well-formed reader state (edges end at nodes, the constants are
+   nodes and not among the reader's gates, the reader's gates are outside the reserved identifiers - all established by
+   the reader itself), identifiers of e reserved, lv a reserved identifier that is absent or an undriven free node.
+   Key lemma (C02_result_cond, tree induction): a node returned by c_cond that is one of the reader's gates is fresh for the
+   start graph, a non-free gate whose fan-in does not contain it, and nothing reads it.
+   Missing for C02_read_denotes_full: (b) the fold over the items with the set of nodes no later statement touches (defined
+   nets, inner gates), using C02_prim_instance_exact for instances; (c) the converse direction (extending a model of the module
+   to the synthetic nodes) *)
+Theorem C02_assign_correct : ∀ k st lv e st',
+  c_assign k st (lv, e) = Ok st' →
+  gst k st → ties_ok k st.1 → list_to_set (ids_cond e) ⊆ k_rsv k →
+  lv ∉ [k_t0 k; k_t1 k; k_tx k] → lv ∈ k_rsv k →
   (∀ i, st.1 !! lv = Some i → n_fi i = ∅ ∧ is_free i = true) →
   ∀ v, consistent st'.1 v → v lv = sem_cond v (v (k_tx k)) e.
-Proof. exact assign_buffer_correct. Qed.
-Print Assumptions C02_assign_buffer_partial.
+Proof. exact assign_correct. Qed.
+Print Assumptions C02_assign_correct.
+Theorem C02_result_cond : ∀ k e st st' r, c_cond k st e = Ok (st', r) → gst k st → list_to_set (ids_cond e) ⊆ k_rsv k →
+  (r ∈ k_rsv k ∨ r ∈ dom st'.1) ∧ (r ∈ st'.2 → st.1 !! r = None ∧ topgate st'.1 r).
+Proof. exact result_cond. Qed.
+Print Assumptions C02_result_cond.
+(* the reader's states are well-formed: preserved by every expression *)
+Theorem C02_gst_cond : ∀ k e st st' r, c_cond k st e = Ok (st', r) → st.1 ⊆ st'.1 ∧ (gst k st → gst k st').
+Proof. exact frg_cond. Qed.
+Print Assumptions C02_gst_cond.
 Theorem C02_prim_instance_exact : ∀ k t g nm n fi g', prim_instance k t g (nm, CPos (n :: fi)) = Ok g' → NoDup fi → fi ≠ [] →
   g' !! n = Some (mk_node t false (fanin g n ∪ list_to_set fi)) ∧
   ∀ x, x ≠ n → g' !! x = g !! x ∨ (g !! x = None ∧ x ∈ fi ∧ g' !! x = Some (mk_node Buf false ∅)).
